@@ -358,8 +358,22 @@ int main(int argc, char** argv) {
     int maxcuts = (int)a.geti("cuts", -1);
     unsigned modes = (unsigned)a.geti("modes", 7);
     bool all_modes = a.geti("allmodes", 0) != 0;
+    if (mode == "pairs") {
+        // every ordered pair of items in every position two values can follow each other: what a suspended first item leaves behind
+        // (escape state, number state, buffered text) must not reach the second.  All 1- and 2-cut deliveries and all regular chunk sizes.
+        static const std::vector<std::string> strs = {"\"a\"", "\"b\\n\"", "\"\\\\\"", "\"\\u00e9x\"", "\"\\ud83d\\ude00\"", "\"\xc3\xa9\"", "\"\"", "\"q\\\"\""};
+        static const std::vector<std::string> others = {"0", "-1", "1.5", "-12.5e+10", "1E2", "123456789012345678901", "true", "false", "null", "[]", "{}"};
+        std::vector<std::string> items(strs); items.insert(items.end(), others.begin(), others.end());
+        long long idx = 0;
+        for (auto& x : items) for (auto& y : items) {
+            std::vector<std::string> docs = {"[" + x + "," + y + "]", "{\"k\":" + x + ",\"j\":" + y + "}", "[" + x + " ,\n" + y + " ]"};
+            if (x[0] == '"') { docs.push_back("{" + x + ":" + y + "}"); docs.push_back("[{" + x + ":1}," + y + "]"); }
+            for (auto& d : docs) { if ((int)(idx++ % a.nslices) != a.slice) continue; check_text(d, 2, modes, all_modes); }
+        }
+    } else {
     const auto& sigma = mode == "tokens" ? SIGMA_T : SIGMA_C;
     for (int len = from; len <= L; ++len) enum_seqs(sigma, len, a.slice, a.nslices, maxcuts, modes, all_modes);
+    }
     out().count("evaluations", g_eval);
     out().count("nontrivial", g_nontrivial);
     for (auto& s : g_suspended) out().cls("suspended:" + s);
